@@ -9,6 +9,8 @@ M = G.Module({m: open(os.path.join(repo, "centrosome", m + ".py")).read() for m 
 names = set(Hd.HAND)
 for d in Hd.ALSO_PINNED.values():
     names.update(d)
-pins = {n: G.ast_hash(M.funcs[n]) for n in sorted(names)}
+pins = {n: G.norm_hash(M.funcs[n]) for n in sorted(names)}
+for key, (fn, st) in Hd.summary_loops(M).items():
+    pins[key] = G.loop_hash(fn, st)
 json.dump(pins, open(os.path.join(os.path.dirname(os.path.abspath(__file__)), "maskflow_pins_c12.json"), "w"), indent=1, sort_keys=True)
 print(pins)
